@@ -560,7 +560,7 @@ func init() {
 			bound = 4
 		}
 		for _, sc := range concScenarios() {
-			engine.ExploreS(ctx, sc, engine.SConfig{Bound: bound, Shard: ctx.Shard, NShards: ctx.NShards, Deadline: ctx.Deadline})
+			engine.ExploreS(ctx, sc, engine.SConfig{BothPolicies: true, Bound: bound, Shard: ctx.Shard, NShards: ctx.NShards, Deadline: ctx.Deadline})
 		}
 		ttHandler(ctx)
 		ttSeq(ctx)
